@@ -37,7 +37,7 @@ func c10Fuzz(f *testing.F, target string) {
 	}
 	if target == "chain" {
 		for _, c := range c10NaturalChainCases(false) {
-			if len(c.Body) <= 64<<10 {
+			if len(c.Body) <= 48<<10 {
 				f.Add(c10EncodeChain(c))
 			}
 		}
@@ -45,8 +45,10 @@ func c10Fuzz(f *testing.F, target string) {
 			f.Add(d.Data)
 		}
 	} else {
-		for _, d := range c10Corpus(target) {
-			if len(d.Data) <= 128<<10 {
+		// light seeds only (committed documents and the 8 % hostile constants): the engine gives every input 10 s of
+		// WALL time under coverage instrumentation, on a machine that runs 15 other shards
+		for _, d := range c10Bases(target) {
+			if len(d.Data) <= 48<<10 {
 				f.Add(d.Data)
 			}
 		}
